@@ -510,6 +510,7 @@ func TestReplay(t *testing.T) {
 	vt.Register(propPairs)
 	vt.Register(propSets)
 	vt.Register(propText)
+	vt.Register(propFanout)
 	vt.Replay(t)
 }
 
